@@ -105,6 +105,9 @@ def check(pm: ProgramModel, ctx: Ctx) -> None:
     cd.report("VOC", "stress-shapes", cd.roundtrip(ctc_model(mb, stress_trees(mb))),
               "constraint shapes that stress normal forms", ("constraint", "constraint-count"))
     cd.large(mb, fragment_ops, mixed=False, cardinal=False)
+    cd.polarity(mb, fragment_ops, "VOC")
+    cd.writer_reuse(mb)
+    cd.reader_reuse(mb)
     from ..interact import Fragment, sweep
     fr = Fragment(names=dict(NAME_CLASSES), ops=tuple(fragment_ops), cardinal=False, mutex=False)
     ctx.analysed.update({f"C07:pairwise-{k_}": v for k_, v in sweep(
